@@ -56,7 +56,8 @@ def witnesses(ai, fmt, typ):
         if fmt == 'N10':
             return [d + t for d in ('000101', '991231', '200229') for t in TIMES4 if not d.endswith('00')]
         if fmt == 'N6[+N6]':
-            return ['180101', '180200', '180101180131', '991231000101', '990200', '990200991200', '680100690100']
+            return ['180101', '180200', '180101180131', '991231000101', '990200', '990200991200', '680100690100',
+                    '181119181119', '181100181130', '000101000101']      # a range of one day (start = end)
         if fmt == 'N6[+N4]':
             return ['180101', '1801011230', '9912312359', '1801010000']
         if fmt == 'N8[+N..4]':
